@@ -110,6 +110,16 @@ const witnessKeyEnumImport = `module w53 {
   container c { list l { key "k"; leaf k { type te; } leaf v { type string; } } }
 }`
 
+// second witness of F53: the key message's UsesYwrapperImport flag is discarded like its imports
+const witnessKeyDecimalImport = `module w53b {
+  namespace "urn:w53b"; prefix w;
+  container c { list l { key "k"; leaf k { type decimal64 { fraction-digits 2; } } } }
+}`
+
+// which of the two F53 witnesses still fail in this process (each variant of the excuse predicate
+// is tied to its own witness)
+var f53EnumActive, f53DecimalActive bool
+
 const witnessDecimalImport = `module w54 {
   namespace "urn:w54"; prefix w;
   container c { leaf u { type union { type string; type decimal64 { fraction-digits 2; } } } }
@@ -171,7 +181,26 @@ func registerC28Witnesses(rec *ev.Rec, t *testing.T) {
 		run(fPkgMsgClash, "w50", witnessPkgMsgClash, func(f *protoFlags) { f.Hierarchy = true }, "link:duplicate-symbol", `"openconfig.w50.top.Config" (message) is already defined as package`)
 		run(fTypeVsField, "w51", witnessTypeVsField, nil, "link:duplicate-symbol", `"openconfig.w51.C.Config" (message) is already defined as field`)
 		run(fRootList, "w52", witnessRootList, func(f *protoFlags) { f.FakeRoot = true }, "link:unresolved", `type "Vlan" is not defined in scope "openconfig.Device.VlanKey"`)
-		run(fKeyEnumImport, "w53", witnessKeyEnumImport, nil, "link:unresolved", `type "openconfig.enums.W53Te" is not defined`)
+		rec.Witness(fKeyEnumImport, func() (bool, string) {
+			var details []string
+			for _, w := range []struct {
+				mod, text, sub string
+				active         *bool
+			}{
+				{"w53", witnessKeyEnumImport, `type "openconfig.enums.W53Te" is not defined`, &f53EnumActive},
+				{"w53b", witnessKeyDecimalImport, `type "ywrapper.Decimal64Value" is not defined in scope "openconfig.w53b.C.LKey"`, &f53DecimalActive},
+			} {
+				probs, _, _, err := witnessRun(t, w.mod, w.text, nil)
+				if err != nil {
+					details = append(details, w.mod+": generator refuses the witness: "+err.Error())
+					continue
+				}
+				bad, d := has(probs, "link:unresolved", w.sub)
+				*w.active = bad
+				details = append(details, w.mod+": "+d)
+			}
+			return f53EnumActive || f53DecimalActive, strings.Join(details, "; ")
+		})
 		run(fDecimalImport, "w54", witnessDecimalImport, nil, "link:import", `import "openconfig/enums/enums.proto" not found`)
 		rec.Witness(fRootPkgUnique, func() (bool, string) {
 			root := scratch(t, "c28wit")
